@@ -300,6 +300,18 @@ impl<Sink: TokenSink> XmlTokenizer<Sink> {
     // NB: this doesn't do input stream preprocessing or set the current input
     // character.
     fn eat(&self, input: &BufferQueue, pat: &str) -> Option<bool> {
+        if self.ignore_lf.get() {
+            // A CR was just consumed: skip the LF of a CR LF pair before matching.
+            match self.peek(input) {
+                Some('\n') => {
+                    self.ignore_lf.set(false);
+                    self.discard_raw_char(input);
+                },
+                Some(_) => self.ignore_lf.set(false),
+                None => (),
+            }
+        }
+
         input.push_front(replace(&mut *self.temp_buf.borrow_mut(), StrTendril::new()));
         match input.eat(pat, u8::eq_ignore_ascii_case) {
             None if self.at_eof.get() => Some(false),
